@@ -364,7 +364,7 @@ def determine(note1, note2, shorthand=False):
         elif x < y:
             if not shorthand:
                 return "augmented unison"
-            return "#1"
+            return "#" * (y - x) + "1"
         elif x - y == 1:
             if not shorthand:
                 return "minor unison"
@@ -372,7 +372,7 @@ def determine(note1, note2, shorthand=False):
         else:
             if not shorthand:
                 return "diminished unison"
-            return "bb1"
+            return "b" * (x - y) + "1"
 
     # Other intervals
     n1 = notes.fifths.index(note1[0])
